@@ -427,3 +427,42 @@ def _while_true(y):
 
 def alarm_after_while_true(src):
     _while_true(src)
+
+
+# ---- forwarding *args of known length ------------------------------------------------------------------------------------
+def _target(a, b):
+    b.width = 1
+
+
+def _forward(*args, **kwargs):
+    return _target(*args, **kwargs)
+
+
+def ok_forward_positions(src):
+    _forward(src, deepcopy(src))
+
+
+def alarm_forward_positions(src):
+    _forward(deepcopy(src), src)
+
+
+def _forward_modified(*args):
+    args = args[::-1]
+    return _target(*args)
+
+
+def alarm_forward_after_rebind(src):
+    _forward_modified(src, deepcopy(src))
+
+
+def alarm_forward_unknown_length(src):
+    xs = [deepcopy(src), src]
+    _forward(*xs)
+
+
+def alarm_star_of_list_same_length(src):
+    # a LIST of two elements is not a tuple display: positions are not tracked
+    xs = [deepcopy(src)]
+    xs.insert(0, src)
+    xs.reverse()
+    _target(*xs)
